@@ -40,6 +40,8 @@ pub struct Annot<'a, S: Clone + Bits> {
     mirror_ok: bool,
     pd: Option<usize>,
     unit: f64,
+    /// C04's precondition (start and every goal sample inside the bounds) holds for this run
+    pub c04_precondition: bool,
 }
 
 fn dense_ranks(vals: &[f64]) -> Vec<i64> {
@@ -132,6 +134,7 @@ impl<'a, S: Clone + Bits> Annot<'a, S> {
             mirror_ok: true,
             pd: None,
             unit,
+            c04_precondition: true,
         }
     }
 
@@ -651,7 +654,7 @@ impl<'a, S: Clone + Bits> Annot<'a, S> {
         let elapsed = (rec.t_end - rec.t_begin) / TICK_NS;
         self.out.push(json!({"ev": "ret", "kind": k, "site": site, "msg": msg, "path": path, "pvalid": pvalid,
             "pinb": pinb, "plen": plen, "first_is_start": first_is_start, "last_goal": last_goal,
-            "start_valid": start_valid, "start_inb": start_inb, "t": elapsed, "T": t, "snap": snap, "feas": feas}));
+            "start_valid": start_valid, "start_inb": start_inb && self.c04_precondition, "t": elapsed, "T": t, "snap": snap, "feas": feas}));
     }
 
     // ------------------------------------------------------------------------------------- PRM
